@@ -89,6 +89,12 @@ class JSONRPC2Connection:
         # line for the JSON request.
         while line != "\r\n":
             line = self.conn.readline()
+            if line == "":
+                raise EOFError()
+            if length is None:
+                length = self._read_header_content_length(line)
+        if length is None:
+            raise JSONRPC2ProtocolError("Missing Content-Length header")
         body = self.conn.read(length)
         log.debug(
             "RECV %s", json.dumps(json.loads(body), separators=(",", ":"), indent=2)
